@@ -2,6 +2,14 @@
 # C09: (1) configuration sweep on the real rayon (workspace A), (2) schedule exploration under loom
 # with the rayon stand-in (workspace B).  The loom binary writes the evidence and embeds the sweep.
 set -u
+cleanup_scratch() {
+  # scratch directories of workers that were killed (only those whose owning process is gone)
+  for d in /dev/shm/verif-*-[0-9]*; do
+    [ -d "$d" ] || continue
+    pid="${d##*-}"
+    [ -d "/proc/$pid" ] || rm -rf "$d"
+  done
+}
 TIER="$1"; shift
 cd /verif
 export CARGO_NET_OFFLINE=true
@@ -21,7 +29,7 @@ fi
 rm -f /verif/.target/c09-sweep-evidence.json
 VERIF_EVIDENCE_PATH=/verif/.target/c09-sweep-evidence.json VERIF_REPLAY_TAG=sweep "$AT"/release/c09cfg --tier "$TIER"; rc1=$?
 "$ST"/release/c09 --tier "$TIER"; rc2=$?
-rm -rf /dev/shm/verif-c09*-* 2>/dev/null
+cleanup_scratch
 if [ $rc1 -eq 2 ] || [ $rc2 -eq 2 ]; then exit 2; fi
 if [ $rc1 -eq 1 ] || [ $rc2 -eq 1 ]; then exit 1; fi
 exit 0
